@@ -12,12 +12,14 @@ PID = "C14"
 MANIFEST = {
     "text": "Coq theorems over the transcribed built-ins (sort/sort_by permutation+stability+sortedness, unique, "
             "reverse, concat, flatten/chunk, zip, slice/head/tail, range, keys/values/entries, group_by/count_by "
-            "partition, join/split, indexing, field access, spreading, string/character consistency, no panic in "
+            "partition, count_by's counter exact for every n < 2^53 (C14_count_num_exact, Flocq Bplus_correct), join/split, indexing, field access, spreading, string/character consistency, no panic in "
             "range/sort), model tied to the code by the BUILTIN and EVAL correspondence streams "
             "and by the laws re-evaluated on the implementation's own serialised results",
     "note": "trusted: Coq kernel + vm_compute; hand transcription of 26 built-in arms and of the Access/DotAccess/"
             "Spread arms and of the repo's own stable merge sort (validated by correspondence every run); "
-            "str::split/replace/contains as naive search, str::trim/to_uppercase/to_lowercase and f64 Display as oracles",
+            "str::split/replace/contains as naive search, str::trim/to_uppercase/to_lowercase and f64 Display as oracles; "
+            "C14_count_num_exact and C14_count_by_counts_exact alone use Flocq's real-number layer (the four "
+            "allow-listed classical axioms)",
     "design_ref": "notes/C14.md (DESIGN.md section 6 C14)",
 }
 REQS = ["Blots.Num", "Blots.gen.Builtins", "Blots.Ast", "Blots.Value", "Blots.Outcome", "Blots.Show",
@@ -41,7 +43,11 @@ class Raw:
 
 
 ASCII_ALPHA = ["a", "b", "c", "A", "B", "z", "0", "1", " ", ",", "-", "x", "ab", "ba"]
-NONASCII_ALPHA = ["é", "ü", "ß", "€", "中", "\U0001F600", "ñ", "a", "b", " ", ","]
+NONASCII_ALPHA = ["é", "ü", "ß", "€", "中", "\U0001F600", "ñ", "a", "b", " ", ",",
+                  # characters whose code point ALIASES an ASCII character when truncated to 8 or 16 bits, next to
+                  # that ASCII character (round 4, seed C14-8: a per-heap cache of one-character strings keyed by
+                  # `c as u8`): U+0141/A, U+017A/z, U+672C/",", U+0432/2, U+0120/space, U+10041/A, U+0100/NUL
+                  "\u0141", "A", "\u017a", "z", "\u672c", "\u0432", "2", "\u0120", "\U00010041", "\u0100"]
 SMALL_NUMS = [0.0, 1.0, 2.0, 3.0, -1.0, -2.0, 5.0, 10.0, 7.0, 4.0]
 ODD_NUMS = [-0.0, 0.5, -0.5, 1.5, 2.5, -1.5, 1e30, -1e30, math.inf, -math.inf, math.nan, 2.0 ** 53, 2.0 ** 63,
             -2.0 ** 63, 2.0 ** 64, 1e19, -1e19, 4294967295.0, 4294967296.0, 0.9999999, -0.9999999, 1e-300, 39.0, 40.0,
@@ -120,7 +126,7 @@ def gen_len(rng):
 
 def gen_list(rng, mode=None):
     n = gen_len(rng)
-    mode = mode if mode is not None else rng.below(8)
+    mode = mode if mode is not None else rng.below(9)
     if mode == 0:        # small integers with many duplicates
         return L(*[N(float(rng.below(5))) for _ in range(n)])
     if mode == 1:        # numbers, comparable (no NaN), with -0/0 and near-equal values
@@ -136,7 +142,33 @@ def gen_list(rng, mode=None):
         return L(*[gen_atom(rng) for _ in range(n)])
     if mode == 6:        # booleans / nulls
         return L(*[rng.choice([B(True), B(False), NULL, B(True)]) for _ in range(n)])
+    if mode == 8:        # members of a few .== classes written differently, long enough for a bucketed / hashed path
+        return gen_class_list(rng)
     return L(*[gen_value(rng, 1) for _ in range(min(n, 12))])
+
+
+def gen_class_list(rng):
+    """a list of 20..80 elements drawn from a handful of .== classes, each class with several SPELLINGS that are
+    equal but not identical: records with permuted key order (also nested), 0 and -0, a list holding either, equal
+    strings (every literal is its own heap cell).  Round 4, seed C14-7: `unique` bucketed by a fingerprint that
+    depended on record key order for lists of 32 or more elements; the generator's long lists held no records."""
+    classes = []
+    for i in range(2 + rng.below(4)):
+        a, b_ = N(float(i)), S("t%d" % (i % 2))
+        inner = [R(("p", a), ("q", b_)), R(("q", b_), ("p", a))]
+        kind = rng.below(5)
+        if kind == 0:
+            classes.append([R(("id", a), ("tag", b_)), R(("tag", b_), ("id", a))])
+        elif kind == 1:
+            classes.append([R(("k", inner[0]), ("z", N(0.0))), R(("z", N(-0.0)), ("k", inner[1])), R(("k", inner[1]), ("z", N(0.0)))])
+        elif kind == 2:
+            classes.append([L(inner[0], N(0.0)), L(inner[1], N(-0.0))])
+        elif kind == 3:
+            classes.append([N(0.0), N(-0.0)] if i == 0 else [N(float(i)), N(float(i))])
+        else:
+            classes.append([S("s%d" % i), S("s%d" % i)])
+    n = rng.choice([20, 31, 32, 33, 40, 63, 64, 65, 80])
+    return L(*[rng.choice(rng.choice(classes)) for _ in range(n)])
 
 
 def gen_index(rng, n):
